@@ -34,7 +34,7 @@ def run(tier, seed, ck=None):
     ck.assumptions += ['coordinates arbitrary field values; the element is a valid representation (C10) for the round-trip conclusion']
     ck.bounds.update({'operands': 'all coordinate triples', 'result length': 'solver-split over {1,33,65}, remainder shown infeasible'})
     from props import C12
-    C12.run(tier, seed, ck)   # contracts of the field.Element methods used as summaries are re-proved on the current tree
+    C12.run(tier, seed, ck, which=['Invert', 'Multiply', 'CMove', 'Sgn0', 'Bytes', 'IsZero', 'One', 'Set'])   # contracts of the field.Element methods used as summaries are re-proved on the current tree
 
     def battery(key, why):
         path = ck.save_replay({'property': 'C04', 'cases': [{'kind': 'el-battery', 'op': 'encode', 'n': ck.seed}]})
